@@ -28,7 +28,7 @@ def cell_attr(n):
     return None
 
 
-STATE = {"aliases": set(), "tainted": False}
+STATE = {"aliases": set(), "tainted": False, "generic": False}      # generic: calls / attribute reads out of the fragment allowed (wrapped_fn)
 
 
 def expr(n, params, locs):
@@ -54,6 +54,8 @@ def expr(n, params, locs):
     ca = cell_attr(n)
     if ca:
         return "(EAttr %s %s)" % (q(ca[0]), q(ca[1]))
+    if isinstance(n, ast.Attribute) and isinstance(n.value, ast.Name) and n.value.id == "cls" and n.attr == "structure" and "structure" in params:
+        return '(EName "structure")'                      # the annotation's structure name: a parameter of the fragment
     if isinstance(n, ast.Call):
         f = n.func
         if isinstance(f, ast.Name) and f.id == "hasattr" and len(n.args) == 2 and not n.keywords and isinstance(n.args[0], ast.Name) and n.args[0].id in CELLS \
@@ -65,13 +67,33 @@ def expr(n, params, locs):
             return "(ECall %s [%s])" % (q(f.id), "; ".join(E(a) for a in n.args))
         if isinstance(f, ast.Attribute) and f.attr == "copy" and not n.args and not n.keywords:
             return "(ECopy %s)" % E(f.value)
+        if isinstance(f, ast.Name) and f.id == "is_check_leaftype" and len(n.args) == 1 and not n.keywords:
+            r = "(EExtern %s [%s])" % (q(f.id), E(n.args[0])); STATE["tainted"] = True
+            return r
+        if isinstance(f, ast.Attribute) and isinstance(f.value, ast.Name) and f.value.id == "jtu" and f.attr == "tree_flatten" and len(n.args) == 1 \
+                and len(n.keywords) == 1 and n.keywords[0].arg == "is_leaf" and isinstance(n.keywords[0].value, ast.Name) and n.keywords[0].value.id == "is_flatten_leaftype":
+            r = "(EExtern %s [%s])" % (q("tree_flatten"), E(n.args[0])); STATE["tainted"] = True
+            return r
         if isinstance(f, ast.Attribute) and isinstance(f.value, ast.Name) and f.value.id == "cls" and f.attr in ("_check_shape", "_check") \
                 and not n.keywords and not any(isinstance(a, ast.Starred) for a in n.args):
             r = "(EExtern %s [%s])" % (q(f.attr), "; ".join(E(a) for a in n.args))
             STATE["tainted"] = True
             return r
+        if STATE["generic"] and not (isinstance(f, ast.Name) and f.id in ACCESSORS):
+            # any other call leaves the fragment: the callee's source text names it, starred / double-starred arguments are passed as values
+            args = [E(a.value) if isinstance(a, ast.Starred) else E(a) for a in n.args]
+            for kw in n.keywords:
+                if kw.arg is not None:
+                    raise Bad("keyword argument in a call out of the fragment")
+                args.append(E(kw.value))
+            return "(EExtern %s [%s])" % (q(ast.unparse(f)), "; ".join(args))
         raise Bad("call %s" % ast.dump(n)[:120])
-    if isinstance(n, ast.Compare) and len(n.ops) == 1:
+    if STATE["generic"] and isinstance(n, ast.Attribute) and isinstance(n.value, ast.Name) and n.value.id not in CELLS:
+        return "(EExtern %s [])" % q(ast.unparse(n))           # reading an attribute of an object outside the fragment
+    if STATE["generic"] and isinstance(n, ast.Subscript) and isinstance(n.value, ast.Name) and n.value.id not in CELLS and isinstance(n.slice, ast.Constant):
+        return "(EExtern %s [])" % q(ast.unparse(n))
+    if isinstance(n, ast.Compare) and len(n.ops) == 1 and (not STATE["generic"] or isinstance(n.ops[0], (ast.NotEq, ast.Is, ast.IsNot)) or
+                                                          (isinstance(n.ops[0], ast.Eq) and isinstance(n.comparators[0], ast.Constant) and isinstance(n.comparators[0].value, str))):
         a, b, op = E(n.left), E(n.comparators[0]), n.ops[0]
         if isinstance(op, ast.NotEq):
             return "(ENe %s %s)" % (a, b)
@@ -81,7 +103,8 @@ def expr(n, params, locs):
             return "(EIs %s %s)" % (a, b)
         if isinstance(op, ast.IsNot):
             return "(EIsNot %s %s)" % (a, b)
-        raise Bad("comparison %s" % type(op).__name__)
+        if not STATE["generic"]:
+            raise Bad("comparison %s" % type(op).__name__)
     if isinstance(n, ast.BoolOp):
         k = "EAnd" if isinstance(n.op, ast.And) else "EOr"
         out = E(n.values[-1])
@@ -111,6 +134,12 @@ def expr(n, params, locs):
             else:
                 raise Bad("f-string piece")
         return "(EFStr [%s])" % "; ".join(ps)
+    if STATE["generic"]:
+        # any other expression is computed outside the fragment from the local values it mentions; it must not touch the storage
+        names = sorted({x.id for x in ast.walk(n) if isinstance(x, ast.Name)})
+        if any(x in ACCESSORS or x in CELLS for x in names):
+            raise Bad("opaque expression touches the storage: %s" % ast.unparse(n)[:80])
+        return "(EExtern %s [%s])" % (q(ast.unparse(n)), "; ".join("(EName %s)" % q(x) for x in names if x in params or x in locs))
     raise Bad("expression %s" % ast.dump(n)[:120])
 
 
@@ -153,6 +182,9 @@ def stmt(s, params, locs):
         raise Bad("assignment %s" % ast.dump(s)[:160])
     if isinstance(s, ast.Expr) and isinstance(s.value, ast.Call) and isinstance(s.value.func, ast.Name) and s.value.func.id in ACCESSORS:
         return "SExpr %s" % E(s.value)
+    if STATE["generic"] and isinstance(s, ast.Expr) and isinstance(s.value, ast.Call) and not (isinstance(s.value.func, ast.Attribute) and cell_attr(s.value.func.value)) \
+            and not (isinstance(s.value.func, ast.Attribute) and isinstance(s.value.func.value, ast.Name) and s.value.func.value.id in locs and s.value.func.attr == "append"):
+        return "SExpr %s" % E(s.value)
     if isinstance(s, ast.Expr) and isinstance(s.value, ast.Call) and isinstance(s.value.func, ast.Attribute) and not s.value.keywords:
         f = s.value.func
         if f.attr == "append" and isinstance(f.value, ast.Name) and f.value.id in locs and len(s.value.args) == 1:
@@ -161,6 +193,31 @@ def stmt(s, params, locs):
             c, a = cell_attr(f.value)
             return "SPopAttr %s %s" % (q(c), q(a))
         raise Bad("expression statement %s" % ast.dump(s)[:160])
+    if STATE["generic"] and isinstance(s, ast.Try) and len(s.handlers) == 1 and not s.orelse and isinstance(s.handlers[0].type, ast.Name) \
+            and s.handlers[0].type.id == "Exception" and s.handlers[0].name and s.handlers[0].body and isinstance(s.handlers[0].body[-1], ast.Raise) \
+            and s.handlers[0].body[-1].exc is None:
+        h = s.handlers[0]
+        b = stmts(s.body, params, locs)
+        locs.add(h.name)
+        inner = "STryExc %s\n    %s\n    %s" % (q(h.name), b, stmts(h.body[:-1], params, locs))
+        if not s.finalbody:
+            return inner
+        for x in s.finalbody:
+            if not (isinstance(x, ast.Expr) and isinstance(x.value, ast.Call) and isinstance(x.value.func, ast.Name) and x.value.func.id in ACCESSORS and not x.value.args and not x.value.keywords):
+                raise Bad("finally block is not a sequence of argument-less accessor calls")
+        return "STryFinally\n    [%s]\n    %s" % (inner, stmts(s.finalbody, params, locs))
+    if isinstance(s, ast.Try) and s.finalbody and not s.handlers and not s.orelse:
+        for x in s.finalbody:
+            # the finally block runs in an environment the embedding does not track after a return / raise: only argument-less accessor calls
+            if not (isinstance(x, ast.Expr) and isinstance(x.value, ast.Call) and isinstance(x.value.func, ast.Name) and x.value.func.id in ACCESSORS and not x.value.args and not x.value.keywords):
+                raise Bad("finally block is not a sequence of argument-less accessor calls")
+        return "STryFinally\n    %s\n    %s" % (stmts(s.body, params, locs), stmts(s.finalbody, params, locs))
+    if isinstance(s, ast.For) and not s.orelse and isinstance(s.target, ast.Tuple) and len(s.target.elts) == 2 and all(isinstance(x, ast.Name) for x in s.target.elts) \
+            and isinstance(s.iter, ast.Call) and isinstance(s.iter.func, ast.Name) and s.iter.func.id == "enumerate" and len(s.iter.args) == 1 and not s.iter.keywords:
+        i, x = s.target.elts[0].id, s.target.elts[1].id
+        it = E(s.iter.args[0])
+        locs.update([i, x])
+        return "SForEnum %s %s %s\n    %s" % (q(i), q(x), it, stmts(s.body, params, locs))
     if isinstance(s, ast.Try):
         if s.orelse or s.finalbody or len(s.handlers) != 1:
             raise Bad("try shape")
@@ -267,7 +324,69 @@ def translate(repo):
         return "Definition %s : sfun := mkfun [\"cls\"; \"obj\"]\n  %s." % (defname, body)
     out.append(tail_of("_array_types.py", "_MetaAbstractArray", "__instancecheck_str__", "src_array_rollback_tail"))
     out.append(tail_of("_pytree_type.py", "_MetaPyTree", "__instancecheck__", "src_pytree_rollback_tail"))
+    # ---- _MetaPyTree._check: the flatten bracket and the leaf loop (the structure comparison between them is JAX's and modelled by hand)
+    pt = ast.parse(open(os.path.join(repo, "jaxtyping", "_pytree_type.py")).read())
+    cm = [m for c in pt.body if isinstance(c, ast.ClassDef) and c.name == "_MetaPyTree" for m in c.body if isinstance(m, ast.FunctionDef) and m.name == "_check"]
+    if len(cm) != 1:
+        raise Bad("_MetaPyTree._check not found exactly once")
+    body = cm[0].body
+    isacc = lambda st, nm: isinstance(st, ast.Expr) and isinstance(st.value, ast.Call) and isinstance(st.value.func, ast.Name) and st.value.func.id == nm
+    fb = [i for i, st in enumerate(body) if isacc(st, "set_treeflatten_memo")]
+    if len(fb) != 1 or fb[0] + 1 >= len(body) or not isinstance(body[fb[0] + 1], ast.Try):
+        raise Bad("_check: expected exactly one top-level `set_treeflatten_memo()` directly followed by a try statement")
+    if not (isinstance(body[-1], ast.Return) and isinstance(body[-1].value, ast.Constant) and body[-1].value.value is True and isinstance(body[-2], ast.Try)):
+        raise Bad("_check does not end with `try: <leaf loop> finally: ...` and `return True`")
+    # nothing else at the top level of _check (outside these two fragments) may touch the label or the flag
+    for k, st in enumerate(body):
+        if k in (fb[0], fb[0] + 1, len(body) - 2):
+            continue
+        for x in ast.walk(st):
+            if isinstance(x, ast.Name) and x.id in ("set_treeflatten_memo", "clear_treeflatten_memo", "set_treepath_memo", "clear_treepath_memo"):
+                raise Bad("_check touches the flatten flag or the leaf position outside its two brackets (%s)" % x.id)
+    STATE["aliases"], STATE["tainted"] = set(), False
+    out.append("Definition src_pytree_flatten_bracket : sfun := mkfun [\"obj\"]\n  %s." % stmts(body[fb[0]:fb[0] + 2], {"obj"}, set()))
+    STATE["aliases"], STATE["tainted"] = set(), False
+    out.append("Definition src_pytree_leaf_loop : sfun := mkfun [\"structure\"; \"leaves\"]\n  %s." % stmts(body[-2:], {"structure", "leaves"}, set()))
+    STATE["aliases"], STATE["tainted"] = set(), False
+    out.append('Definition walk_src : smodule := (storage_src ++ [("flatten_bracket", src_pytree_flatten_bracket); ("leaf_loop", src_pytree_leaf_loop)])%list.')
     out.append('Definition rollback_src : smodule := (storage_src ++ [("array_tail", src_array_rollback_tail); ("pytree_tail", src_pytree_rollback_tail)])%list.')
+    # ---- the new-style decorated function: jaxtyped(typechecker=...)(fn) returns this wrapper
+    wf = [n for n in ast.walk(dtree) if isinstance(n, ast.FunctionDef) and n.name == "wrapped_fn"
+          and any(isinstance(x, ast.Name) and x.id == "wrapped_fn_impl" for x in ast.walk(n))]
+    if len(wf) != 1:
+        raise Bad("new-style wrapped_fn (the one calling wrapped_fn_impl) not found exactly once")
+    w = wf[0]
+    if not (w.args.vararg and w.args.vararg.arg == "args" and w.args.kwarg and w.args.kwarg.arg == "kwargs" and not w.args.args and not w.args.kwonlyargs and not w.args.posonlyargs):
+        raise Bad("unexpected signature of wrapped_fn")
+    inner = [x for st in w.body for x in ast.walk(st)]
+    assigned = {t.id for st in inner if isinstance(st, ast.Assign) for t in st.targets if isinstance(t, ast.Name)}
+    free = sorted({x.id for x in inner if isinstance(x, ast.Name) and isinstance(x.ctx, ast.Load)} - assigned - set(ACCESSORS) - {"getattr", "args", "kwargs"})
+    wparams = ["args", "kwargs"] + free
+    STATE["aliases"], STATE["tainted"], STATE["generic"] = set(), False, True
+    try:
+        wbody = stmts(w.body, set(wparams) | {"getattr"}, set())
+    finally:
+        STATE["generic"] = False
+    out.append("Definition src_wrapped_fn : sfun := mkfun [%s]\n  %s." % ("; ".join(q(x) for x in wparams), wbody))
+    wo = [n for n in ast.walk(dtree) if isinstance(n, ast.FunctionDef) and n.name == "wrapped_fn"
+          and not any(isinstance(x, ast.Name) and x.id == "wrapped_fn_impl" for x in ast.walk(n))]
+    if len(wo) != 1:
+        raise Bad("old-style wrapped_fn (the one around jaxtyped(typechecker(fn))) not found exactly once")
+    wo = wo[0]
+    if not (wo.args.vararg and wo.args.vararg.arg == "args" and wo.args.kwarg and wo.args.kwarg.arg == "kwargs" and not wo.args.args and not wo.args.kwonlyargs and not wo.args.posonlyargs):
+        raise Bad("unexpected signature of the old-style wrapped_fn")
+    inner = [x for st in wo.body for x in ast.walk(st)]
+    assigned = {t.id for st in inner if isinstance(st, ast.Assign) for t in st.targets if isinstance(t, ast.Name)} | {h.name for h in inner if isinstance(h, ast.ExceptHandler) and h.name}
+    free = sorted({x.id for x in inner if isinstance(x, ast.Name) and isinstance(x.ctx, ast.Load)} - assigned - set(ACCESSORS) - {"args", "kwargs"})
+    oparams = ["args", "kwargs"] + free
+    STATE["aliases"], STATE["tainted"], STATE["generic"] = set(), False, True
+    try:
+        obody = stmts(wo.body, set(oparams), set())
+    finally:
+        STATE["generic"] = False
+    out.append("Definition src_old_wrapped_fn : sfun := mkfun [%s]\n  %s." % ("; ".join(q(x) for x in oparams), obody))
+    out.append('Definition wrapped_src : smodule := (storage_src ++ [("wrapped_fn", src_wrapped_fn); ("old_wrapped_fn", src_old_wrapped_fn)])%list.')
+    out.append('Definition all_src : smodule := (storage_src ++ [("__enter__", src_context__enter); ("__exit__", src_context__exit); ("flatten_bracket", src_pytree_flatten_bracket); ("leaf_loop", src_pytree_leaf_loop); ("array_tail", src_array_rollback_tail); ("pytree_tail", src_pytree_rollback_tail); ("wrapped_fn", src_wrapped_fn); ("old_wrapped_fn", src_old_wrapped_fn)])%list.')
     return {"StorageSrc.v": "\n".join(out) + "\n"}
 
 
